@@ -27,7 +27,8 @@ LEVEL_TEXT = ("machine-checked Lean 4 theorems, for files of any length written 
               "paths of real files with n <= 6 (quick) / n <= 12 (thorough) events")
 LEVEL_NOTE = ("all C12 theorems are fully proved (no _partial): C12_iterate_eq_sequential, C12_getitem_int, "
               "C12_getitem_int_out_of_range, C12_getitem_slice, C12_append_eq_single, C12_append_iterate, C12_filegen_chunk, "
-              "C12_filegen_replays, C12_filegen_count, C12_filegen_count_total, C12_step2_witness, C12_orphan_witness (the last "
+              "C12_filegen_replays, C12_filegen_count, C12_filegen_count_total, C12_load_cut_matches_source (statements of "
+              "_load_data / __next__ regenerated from pyrex/io.py on every run), C12_step2_witness, C12_orphan_witness (the last "
               "two show that the unrepaired cumulative cut of _load_data is wrong).  Assumed / outside the theorems: row "
               "contents (see C11); files are written under option sets that record particles; slice_range <= 0, slices "
               "with a >= b or step <= 0 are outside the claim (still compared with the model on a sample); the share "
@@ -35,7 +36,7 @@ LEVEL_NOTE = ("all C12 theorems are fully proved (no _partial): C12_iterate_eq_s
               "evaluated in IEEE doubles by the driver; a zero-event file inside a FileGenerator file list crashes the "
               "generator (known finding K6) and is excluded from the claim")
 TECHNIQUE = "Lean 4 model of EventIterator / __getitem__ / append / FileGenerator + exhaustive differential run on real files"
-EXTRACTORS = []
+EXTRACTORS = ["h5_steps"]
 ASSUMPTIONS = [
     "row content is not modelled, rows are identified by (add call, position) encoded in the written values",
     "file slice_range >= 1 (requests with slice_range <= 0 are not made)",
